@@ -1,4 +1,5 @@
 import LeptosModel.Proofs.ViewFinal
+import LeptosModel.Proofs.ViewSer2
 /-!
 # C03 — updating a view in place gives the same DOM as rendering it fresh
 
@@ -15,21 +16,34 @@ node outside the state (separation-style invariant `Inv` / frame `Res`).
   `Option`, `Either` / `EitherOfN` (incl. branch switches), `Vec` (grow, shrink, fill from empty, clear),
   **and `AnyView`** (same type: rebuild with the erased flag; other type: replaced in position).
   = stages 1 and 3 of DESIGN §7 C03.
-* **Attributes: stage 1 only** — `Attr<K, String>` items with pairwise distinct keys
-  (`StaticAttrs`, decidable; on types: `Ty.inStage1`).  The proof is parametric in the attribute
-  fragment (`rebuild_spec` takes any predicate `Good` with `AttrsFresh` / `AttrsRebuild`), so a
-  later stage only has to supply those two lemmas.
+* **Attributes, stage 1** — `Attr<K, String>` items with pairwise distinct keys (`StaticAttrs`,
+  `View.inFragment`, on types `Ty.inStage1`): conclusion with *exact* equality of the serialisation
+  (`C03_build_mount`, `C03_rebuild_eq_fresh`, `C03_update_eq_fresh`, `C03_rebuild_seq`, …).
+* **Attributes, stage 2a** — `Attr<K, String | Option<String> | bool>`, one whole-value
+  `Class<String | Option<String>>` and one `Style<String>` per element, every key once (`KVAttrs`,
+  `View.inFragment2`): `C03_build_mount_attrvalues`, `C03_rebuild_eq_fresh_attrvalues`,
+  `C03_rebuild_seq_attrvalues`; the conclusion compares every element's attributes **as a map**
+  (`Tree.simList AttrsEq`), because `None` / `false` removes an attribute and a later `Some` / `true`
+  appends it at the end of the list.
+* The proof is parametric in the attribute fragment and in the relation on attribute lists:
+  `rebuild_spec` takes any predicate `Good` with `AttrsFresh R` / `AttrsRebuild R`.
 
 ## What is OPEN / refuted
 
-* Stage 2 (`Option<String>` / `bool` values, `class`, `style` items) is **not proved**, and the
-  statement over *all* attribute shapes is **false of the code**: `C03_rebuild_eq_fresh_stmt` is the
-  full statement (executable form), `C03_rebuild_eq_fresh_stmt_false` refutes it by a kernel-checked
-  witness (finding F-C03-1; F-C03-2..5 are further classes, see props/C03.known and the class
-  predicates `classOverwrite`, `styleOverwrite`, `toggleRenamed`, `styleRenamed`, `dupItem` in
-  `Model/View.lean`).  These shapes are covered by the correspondence run only.
+* Stage 2b — item-wise `class` / `style` (`(name, bool)` toggles, `(name, value)` /
+  `(name, Option<value>)` style properties, and any element with several writers of `class` or
+  `style`) is **not proved** (needs round-trip lemmas for the class-token / style-declaration
+  strings), and the statement over *all* attribute shapes is **false of the code**:
+  `C03_rebuild_eq_fresh_stmt` is the full statement (executable form),
+  `C03_rebuild_eq_fresh_stmt_false` refutes it by a kernel-checked witness (F-C03-1); F-C03-2 and
+  F-C03-5 are further remaining classes (props/C03.known; class predicates `classOverwrite`,
+  `styleOverwrite`, `dupItem`, `dupItemPair` in `Model/View.lean`).  F-C03-1 (AnyView part),
+  F-C03-3 and F-C03-4 are repaired in /repo: `*_fixed` theorems, and `*_witness_old` regression
+  theorems about the pre-repair `rebuildAttrOld`.  These shapes are covered by the correspondence
+  run only.
 * Stage 4 (`keyed`) is not in the Lean `View` type (modelled over an abstract child list in
-  `Model/Keyed.lean`, C11); correspondence only.
+  `Model/Keyed.lean`, C11; adding a constructor would break the exhaustive matches of the C05
+  files that import `Model/View.lean`); correspondence only.
 -/
 namespace Leptos.View
 open Leptos.Dom
@@ -190,7 +204,7 @@ theorem C03_build_mount (v : View) (d : Dom) (p : Id) (pre post : List Id) (rp :
     (hplt : p < d.next) (hsl : ∀ x, x ∈ pre ++ post → x < d.next)
     (hanchor : Anchor d p post.head? pre post)
     (hs : SiblingsOk d [] p pre post n0 preT postT) :
-    StateOk (mount (build v d).2 (build v d).1 p post.head?) v (build v d).2 p pre post ∧
+    StateOk Eq (mount (build v d).2 (build v d).1 p post.head?) v (build v d).2 p pre post ∧
     SiblingsOk (mount (build v d).2 (build v d).1 p post.head?) (owned (build v d).2) p pre post
       n0 preT postT ∧
     (∀ m, max n0 v.depth ≤ m →
@@ -211,8 +225,8 @@ theorem C03_rebuild_eq_fresh (a b : View) (ty : Ty) (st : State) (d : Dom) (p : 
     (pre post : List Id) (n0 : Nat) (preT postT : List Tree)
     (hta : HasTy a ty) (htb : HasTy b ty)
     (ha : a.inFragment = true) (hb : b.inFragment = true)
-    (hok : StateOk d a st p pre post) (hs : SiblingsOk d (owned st) p pre post n0 preT postT) :
-    StateOk (rebuild false b st d).1 b (rebuild false b st d).2 p pre post ∧
+    (hok : StateOk Eq d a st p pre post) (hs : SiblingsOk d (owned st) p pre post n0 preT postT) :
+    StateOk Eq (rebuild false b st d).1 b (rebuild false b st d).2 p pre post ∧
     SiblingsOk (rebuild false b st d).1 (owned (rebuild false b st d).2) p pre post n0 preT postT ∧
     (∀ m, max n0 b.depth ≤ m →
       serListN m (rebuild false b st d).1 ((rebuild false b st d).1.kidsOf p) =
@@ -220,7 +234,7 @@ theorem C03_rebuild_eq_fresh (a b : View) (ty : Ty) (st : State) (d : Dom) (p : 
   obtain ⟨h1, h2⟩ := rebuild_spec StaticAttrs AttrsFresh_static
     (fun as bs x y z => AttrsRebuild_static as bs x y z) b a ty st false d p pre post
     hta.1 hta.2 htb.2 (inFragment_allEl a ha) (inFragment_allEl b hb) hok.rep hok.inv
-  have hok' : StateOk _ b _ p pre post := ⟨h1, h2.inv⟩
+  have hok' : StateOk Eq _ b _ p pre post := ⟨h1, h2.inv⟩
   have hs' := hs.step h2.next_le h2.frame h2.own
   exact ⟨hok', hs', hok'.ser hs'⟩
 
@@ -228,7 +242,7 @@ theorem C03_rebuild_eq_fresh (a b : View) (ty : Ty) (st : State) (d : Dom) (p : 
 theorem C03_rebuild_eq_fresh_stage1 (a b : View) (ty : Ty) (st : State) (d : Dom) (p : Id)
     (pre post : List Id) (n0 : Nat) (preT postT : List Tree)
     (hta : HasTy a ty) (htb : HasTy b ty) (hstage : ty.inStage1 = true)
-    (hok : StateOk d a st p pre post) (hs : SiblingsOk d (owned st) p pre post n0 preT postT) :
+    (hok : StateOk Eq d a st p pre post) (hs : SiblingsOk d (owned st) p pre post n0 preT postT) :
     ∀ m, max n0 b.depth ≤ m →
       serListN m (rebuild false b st d).1 ((rebuild false b st d).1.kidsOf p) =
       some (preT ++ render b ++ postT) :=
@@ -277,8 +291,8 @@ type, the parent serialises to the fresh render of the last value. -/
 theorem C03_rebuild_seq (ty : Ty) (p : Id) (pre post : List Id) (n0 : Nat) (preT postT : List Tree) :
     ∀ (bs : List View) (a : View) (st : State) (d : Dom),
     HasTy a ty → a.inFragment = true → allInFragment ty bs →
-    StateOk d a st p pre post → SiblingsOk d (owned st) p pre post n0 preT postT →
-    StateOk (rebuildAll bs st d).1 (lastView a bs) (rebuildAll bs st d).2 p pre post ∧
+    StateOk Eq d a st p pre post → SiblingsOk d (owned st) p pre post n0 preT postT →
+    StateOk Eq (rebuildAll bs st d).1 (lastView a bs) (rebuildAll bs st d).2 p pre post ∧
     (∀ m, max n0 (lastView a bs).depth ≤ m →
       serListN m (rebuildAll bs st d).1 ((rebuildAll bs st d).1.kidsOf p) =
       some (preT ++ render (lastView a bs) ++ postT))
@@ -293,7 +307,7 @@ theorem C03_rebuild_seq (ty : Ty) (p : Id) (pre post : List Id) (n0 : Nat) (preT
 children are `pre ++ post` again (serialising as before), and no other node changes. -/
 theorem C03_unmount_exact (v : View) (st : State) (d : Dom) (p : Id) (pre post : List Id)
     (n0 : Nat) (preT postT : List Tree)
-    (hok : StateOk d v st p pre post) (hs : SiblingsOk d (owned st) p pre post n0 preT postT) :
+    (hok : StateOk Eq d v st p pre post) (hs : SiblingsOk d (owned st) p pre post n0 preT postT) :
     (unmount st d).kidsOf p = pre ++ post ∧
     (∀ x, x ≠ p → x ∉ st.roots → (unmount st d).get? x = d.get? x) ∧
     (∀ m, n0 ≤ m → serListN m (unmount st d) ((unmount st d).kidsOf p) = some (preT ++ postT)) := by
@@ -315,9 +329,9 @@ theorem C03_any_type_change (tya tyb : Ty) (va vb : View) (old : State) (d : Dom
     (pre post : List Id) (n0 : Nat) (preT postT : List Tree)
     (hne : Ty.beq tyb tya = false)
     (hta : HasTy (.any tya va) .any) (hb : vb.inFragment = true)
-    (hok : StateOk d (.any tya va) (.any tya old) p pre post)
+    (hok : StateOk Eq d (.any tya va) (.any tya old) p pre post)
     (hs : SiblingsOk d (owned (.any tya old)) p pre post n0 preT postT) :
-    StateOk (rebuild false (.any tyb vb) (.any tya old) d).1 (.any tyb vb)
+    StateOk Eq (rebuild false (.any tyb vb) (.any tya old) d).1 (.any tyb vb)
       (rebuild false (.any tyb vb) (.any tya old) d).2 p pre post ∧
     (∀ x, x ∈ owned (rebuild false (.any tyb vb) (.any tya old) d).2 → d.next ≤ x) ∧
     (∀ m, max n0 vb.depth ≤ m →
@@ -334,7 +348,7 @@ theorem C03_any_type_change (tya tyb : Ty) (va vb : View) (old : State) (d : Dom
   have hB := build_spec vb d (AllEl.mono AttrsFresh_static vb (inFragment_allEl vb hb))
   rw [rebuild_any]
   simp only [hne, Bool.false_eq_true, if_false]
-  have hok' : StateOk (replaceState old (build vb d).2 (build vb d).1) (.any tyb vb)
+  have hok' : StateOk Eq (replaceState old (build vb d).2 (build vb d).1) (.any tyb vb)
       (.any tyb (build vb d).2) p pre post :=
     ⟨by simp only [Rep]; exact ⟨trivial, h1⟩, by simpa [State.roots, owned] using h2.inv⟩
   have hs' : SiblingsOk (replaceState old (build vb d).2 (build vb d).1)
@@ -343,6 +357,114 @@ theorem C03_any_type_change (tya tyb : Ty) (va vb : View) (old : State) (d : Dom
   refine ⟨hok', ?_, ?_⟩
   · intro x hx; exact (hB.range x (by simpa [owned] using hx)).1
   · simpa [View.depth, render] using hok'.ser hs'
+
+/-! ## stage 2a: `String` / `Option<String>` / `bool` attribute values, one whole-value `class` /
+`style` string — attributes compared as a map (`AttrsEq`: `None`/`false` removes an attribute, a later
+`Some`/`true` appends it, so the *order* of the attribute list may differ from a fresh render) -/
+
+mutual
+/-- every element of the view has only `Attr<K, String | Option<String> | bool>` items and at most
+one `Class<String>` and one `Style<String>`, every attribute key once -/
+def View.inFragment2 : View → Bool
+  | .elem _ as c => decide (KVAttrs as) && View.inFragment2 c
+  | .tuple vs => View.inFragment2List vs
+  | .osome v => View.inFragment2 v
+  | .either _ _ v => View.inFragment2 v
+  | .vec vs => View.inFragment2List vs
+  | .any _ v => View.inFragment2 v
+  | _ => true
+def View.inFragment2List : List View → Bool
+  | [] => true
+  | v :: vs => View.inFragment2 v && View.inFragment2List vs
+end
+
+mutual
+theorem inFragment2_allEl : ∀ (v : View), v.inFragment2 = true → AllEl KVAttrs v
+  | .text _, _ => by simp [AllEl]
+  | .unit, _ => by simp [AllEl]
+  | .onone, _ => by simp [AllEl]
+  | .elem _ as c, h => by
+    simp [View.inFragment2] at h; simp only [AllEl]; exact ⟨h.1, inFragment2_allEl c h.2⟩
+  | .tuple vs, h => by
+    simp only [View.inFragment2] at h; simp only [AllEl]; exact inFragment2List_allEl vs h
+  | .osome v, h => by
+    simp only [View.inFragment2] at h; simp only [AllEl]; exact inFragment2_allEl v h
+  | .either _ _ v, h => by
+    simp only [View.inFragment2] at h; simp only [AllEl]; exact inFragment2_allEl v h
+  | .vec vs, h => by
+    simp only [View.inFragment2] at h; simp only [AllEl]; exact inFragment2List_allEl vs h
+  | .any _ v, h => by
+    simp only [View.inFragment2] at h; simp only [AllEl]; exact inFragment2_allEl v h
+theorem inFragment2List_allEl : ∀ (vs : List View), View.inFragment2List vs = true →
+    AllElList KVAttrs vs
+  | [], _ => by simp [AllElList]
+  | v :: vs, h => by
+    simp [View.inFragment2List] at h; simp only [AllElList]
+    exact ⟨inFragment2_allEl v h.1, inFragment2List_allEl vs h.2⟩
+end
+
+/-- **C03_build_mount**, stage 2a -/
+theorem C03_build_mount_attrvalues (v : View) (d : Dom) (p : Id) (pre post : List Id) (rp : NodeRec)
+    (n0 : Nat) (preT postT : List Tree)
+    (hv : v.inFragment2 = true)
+    (hp : d.get? p = some rp) (hpe : rp.kind.isElem = true) (hk : rp.kids = pre ++ post)
+    (hplt : p < d.next) (hsl : ∀ x, x ∈ pre ++ post → x < d.next)
+    (hanchor : Anchor d p post.head? pre post)
+    (hs : SiblingsOk d [] p pre post n0 preT postT) :
+    StateOk AttrsEq (mount (build v d).2 (build v d).1 p post.head?) v (build v d).2 p pre post ∧
+    SiblingsOk (mount (build v d).2 (build v d).1 p post.head?) (owned (build v d).2) p pre post
+      n0 preT postT ∧
+    (∀ m, max n0 v.depth ≤ m → ∃ ts,
+      serListN m (mount (build v d).2 (build v d).1 p post.head?)
+        ((mount (build v d).2 (build v d).1 p post.head?).kidsOf p) = some ts ∧
+      Tree.simList AttrsEq ts (preT ++ render v ++ postT)) := by
+  obtain ⟨hok, hle, hfr, hge⟩ := build_mount_spec (R := AttrsEq) v d p pre post rp
+    (AllEl.mono AttrsFresh_kv v (inFragment2_allEl v hv)) hp hpe hk hplt hsl hanchor
+  have hs' := hs.step hle (fun x hx _ hxp => hfr x hx hxp) (fun x hx => Or.inr (hge x hx))
+  exact ⟨hok, hs', hok.serSim AttrsEq.refl hs'⟩
+
+/-- **C03_rebuild_eq_fresh**, stage 2a (every structural combinator incl. `AnyView`; attribute values
+`String`, `Option<String>`, `bool`; one whole-value `class` and `style` string): after `rebuild b`
+the parent serialises to `pre ++ render b ++ post` with every element's attributes equal **as a
+map** to those of the fresh render. -/
+theorem C03_rebuild_eq_fresh_attrvalues (a b : View) (ty : Ty) (st : State) (d : Dom) (p : Id)
+    (pre post : List Id) (n0 : Nat) (preT postT : List Tree)
+    (hta : HasTy a ty) (htb : HasTy b ty)
+    (ha : a.inFragment2 = true) (hb : b.inFragment2 = true)
+    (hok : StateOk AttrsEq d a st p pre post)
+    (hs : SiblingsOk d (owned st) p pre post n0 preT postT) :
+    StateOk AttrsEq (rebuild false b st d).1 b (rebuild false b st d).2 p pre post ∧
+    SiblingsOk (rebuild false b st d).1 (owned (rebuild false b st d).2) p pre post n0 preT postT ∧
+    (∀ m, max n0 b.depth ≤ m → ∃ ts,
+      serListN m (rebuild false b st d).1 ((rebuild false b st d).1.kidsOf p) = some ts ∧
+      Tree.simList AttrsEq ts (preT ++ render b ++ postT)) := by
+  obtain ⟨h1, h2⟩ := rebuild_spec (R := AttrsEq) KVAttrs AttrsFresh_kv
+    (fun as bs x y z => AttrsRebuild_kv as bs x y z) b a ty st false d p pre post
+    hta.1 hta.2 htb.2 (inFragment2_allEl a ha) (inFragment2_allEl b hb) hok.rep hok.inv
+  have hok' : StateOk AttrsEq _ b _ p pre post := ⟨h1, h2.inv⟩
+  have hs' := hs.step h2.next_le h2.frame h2.own
+  exact ⟨hok', hs', hok'.serSim AttrsEq.refl hs'⟩
+
+def allInFragment2 (ty : Ty) : List View → Prop
+  | [] => True
+  | b :: bs => HasTy b ty ∧ b.inFragment2 = true ∧ allInFragment2 ty bs
+
+/-- **C03_rebuild_seq**, stage 2a -/
+theorem C03_rebuild_seq_attrvalues (ty : Ty) (p : Id) (pre post : List Id) (n0 : Nat)
+    (preT postT : List Tree) :
+    ∀ (bs : List View) (a : View) (st : State) (d : Dom),
+    HasTy a ty → a.inFragment2 = true → allInFragment2 ty bs →
+    StateOk AttrsEq d a st p pre post → SiblingsOk d (owned st) p pre post n0 preT postT →
+    StateOk AttrsEq (rebuildAll bs st d).1 (lastView a bs) (rebuildAll bs st d).2 p pre post ∧
+    (∀ m, max n0 (lastView a bs).depth ≤ m → ∃ ts,
+      serListN m (rebuildAll bs st d).1 ((rebuildAll bs st d).1.kidsOf p) = some ts ∧
+      Tree.simList AttrsEq ts (preT ++ render (lastView a bs) ++ postT))
+  | [], a, st, d, _, _, _, hok, hs => ⟨hok, hok.serSim AttrsEq.refl hs⟩
+  | b :: bs, a, st, d, hta, ha, hbs, hok, hs => by
+    obtain ⟨htb, hb, hrest⟩ := hbs
+    obtain ⟨hok', hs', _⟩ := C03_rebuild_eq_fresh_attrvalues a b ty st d p pre post n0 preT postT
+      hta htb ha hb hok hs
+    exact C03_rebuild_seq_attrvalues ty p pre post n0 preT postT bs b _ _ htb hb hrest hok' hs'
 
 /-! ## the full statement, and its refutation -/
 
@@ -383,16 +505,7 @@ theorem C03_rebuild_eq_fresh_stmt_false : ¬ C03_rebuild_eq_fresh_stmt := by
   exact absurd this (by decide)
 
 
-/-! further kernel-checked witnesses, one per known-finding class (props/C03.known) -/
-
-/-- F-C03-1 inside an `AnyView`: rebuilding with the IDENTICAL value drops the toggled class
-(`Class<Arc<str>>::rebuild` compares pointers and rewrites the whole attribute) -/
-def witnessAny : View :=
-  .any (.elem "div" [.cls, .tcls] .unit) (.elem "div" [.cls "a", .tcls "on" true] .unit)
-
-theorem C03_any_identical_value_witness :
-    HasTy witnessAny .any ∧ updateEqFresh witnessAny witnessAny = false ∧
-    View.anyElem classOverwrite witnessAny = true := by decide
+/-! further kernel-checked witnesses for the finding classes that remain (props/C03.known) -/
 
 /-- F-C03-2 style-overwrite -/
 theorem C03_style_overwrite_witness :
@@ -401,11 +514,22 @@ theorem C03_style_overwrite_witness :
     View.anyElem styleOverwrite (.elem "div" [.sty "color: blue;", .psty "width" "1px"] .unit) = true := by
   decide
 
-/-- F-C03-3 toggle-rename -/
-theorem C03_toggle_rename_witness :
-    updateEqFresh (.elem "div" [.tcls "b" true] .unit) (.elem "div" [.tcls "a" true] .unit) = false ∧
-    View.anyElemPair toggleRenamed (.elem "div" [.tcls "b" true] .unit)
-      (.elem "div" [.tcls "a" true] .unit) = true := by decide
+/-- F-C03-5 dup-item -/
+theorem C03_dup_item_witness :
+    updateEqFresh (.elem "div" [.tcls "on" true, .tcls "on" true] .unit)
+      (.elem "div" [.tcls "on" false, .tcls "on" true] .unit) = false ∧
+    View.anyElem dupItem (.elem "div" [.tcls "on" false, .tcls "on" true] .unit) = true := by decide
+
+set_option maxRecDepth 8192 in
+/-- F-C03-5 across a rename: two items swap their names -/
+theorem C03_dup_item_rename_witness :
+    updateEqFresh (.elem "div" [.tcls "a" true, .tcls "b" true] .unit)
+      (.elem "div" [.tcls "b" true, .tcls "a" true] .unit) = false ∧
+    View.anyElemPair dupItemPair (.elem "div" [.tcls "a" true, .tcls "b" true] .unit)
+      (.elem "div" [.tcls "b" true, .tcls "a" true] .unit) = true := by decide
+
+/-! ## repaired defects (fix: commits of hooks/fix-c03-{1,3,4}.patch): the inputs now pass, and the
+pre-repair code (`rebuildAttrOld`) is kept with its witnesses as regression theorems -/
 
 /-- the canonical-context check for a sequence of rebuilds -/
 def updateSeqEqFresh (a : View) (bs : List View) : Bool :=
@@ -419,18 +543,47 @@ def updateSeqEqFresh (a : View) (bs : List View) : Bool :=
   | some x, some y => Tree.beqList (Tree.normList x) (Tree.normList y)
   | _, _ => false
 
-/-- F-C03-4 style-rename: the stored name is never updated, the second rename leaves `width` -/
-theorem C03_style_rename_witness :
-    updateSeqEqFresh (.elem "div" [.psty "color" "red"] .unit)
-      [.elem "div" [.psty "width" "1px"] .unit, .elem "div" [.psty "--x" "1"] .unit] = false ∧
-    updateSeqEqFresh (.elem "div" [.psty "color" "red"] .unit)
-      [.elem "div" [.psty "width" "1px"] .unit] = true := by decide
+/-- the same check on one element's attributes, run on the code BEFORE the repairs -/
+def attrsUpdateEqFreshOld (er : Bool) (as : List AttrVal) (bss : List (List AttrVal)) : Bool :=
+  let d0 := (({} : Dom).createElement "div").1
+  let r1 := buildAttrs 0 as d0
+  let r2 := bss.foldl (fun (acc : Dom × List AttrState) bs => rebuildAttrsOld er 0 bs acc.2 acc.1) r1
+  let e1 := buildAttrs 0 (bss.getLast?.getD as) d0
+  normAttrs (r2.1.attrsOf 0) == normAttrs (e1.1.attrsOf 0)
 
-/-- F-C03-5 dup-item -/
-theorem C03_dup_item_witness :
-    updateEqFresh (.elem "div" [.tcls "on" true, .tcls "on" true] .unit)
-      (.elem "div" [.tcls "on" false, .tcls "on" true] .unit) = false ∧
-    View.anyElem dupItem (.elem "div" [.tcls "on" false, .tcls "on" true] .unit) = true := by decide
+/-- F-C03-1 inside an `AnyView` (repaired by fix-c03-1: `Class<Arc<str>>::rebuild` compares
+contents): rebuilding with the identical value keeps the toggled class -/
+def witnessAny : View :=
+  .any (.elem "div" [.cls, .tcls] .unit) (.elem "div" [.cls "a", .tcls "on" true] .unit)
+
+theorem C03_any_identical_value_fixed :
+    HasTy witnessAny .any ∧ updateEqFresh witnessAny witnessAny = true := by decide
+
+theorem C03_any_identical_value_witness_old :
+    attrsUpdateEqFreshOld true [.cls "a", .tcls "on" true] [[.cls "a", .tcls "on" true]] = false ∧
+    attrsUpdateEqFreshOld false [.cls "a", .tcls "on" true] [[.cls "a", .tcls "on" true]] = true := by
+  decide
+
+/-- F-C03-3 toggle-rename (repaired by fix-c03-3) -/
+theorem C03_toggle_rename_fixed :
+    updateEqFresh (.elem "div" [.tcls "b" true] .unit) (.elem "div" [.tcls "a" true] .unit) = true ∧
+    updateEqFresh (.elem "div" [.tcls "b" true] .unit) (.elem "div" [.tcls "a" false] .unit) = true ∧
+    updateEqFresh (.elem "div" [.tcls "b" false] .unit) (.elem "div" [.tcls "a" true] .unit) = true := by
+  decide
+
+theorem C03_toggle_rename_witness_old :
+    attrsUpdateEqFreshOld false [.tcls "b" true] [[.tcls "a" true]] = false ∧
+    toggleRenamed [.tcls "b" true] [.tcls "a" true] = true := by decide
+
+/-- F-C03-4 style-rename (repaired by fix-c03-4: the stored name is updated) -/
+theorem C03_style_rename_fixed :
+    updateSeqEqFresh (.elem "div" [.psty "color" "red"] .unit)
+      [.elem "div" [.psty "width" "1px"] .unit, .elem "div" [.psty "--x" "1"] .unit] = true := by
+  decide
+
+theorem C03_style_rename_witness_old :
+    attrsUpdateEqFreshOld false [.psty "color" "red"] [[.psty "width" "1px"], [.psty "--x" "1"]] = false ∧
+    attrsUpdateEqFreshOld false [.psty "color" "red"] [[.psty "width" "1px"]] = true := by decide
 
 /-! ## non-vacuity -/
 
@@ -479,5 +632,13 @@ example :
     treesAre (serializeKids d1 0) ([Tree.text "x"] ++ render exA ++ [Tree.comment "m"]) = true ∧
     treesAre (serializeKids r2.1 0) ([Tree.text "x"] ++ render exB ++ [Tree.comment "m"]) = true ∧
     (unmount r2.2 r2.1).kidsOf 0 = [1, 2] := by decide
+
+/-- non-vacuity for stage 2a: the attribute goes away and comes back at the END of the list -/
+example :
+    let a : View := .elem "p" [.ostr "title" (some "t"), .str "id" "x", .bool "hidden" true, .cls "c"] .unit
+    let b : View := .elem "p" [.ostr "title" none, .str "id" "y", .bool "hidden" false, .cls "c d"] .unit
+    a.inFragment2 = true ∧ b.inFragment2 = true ∧ a.inFragment = false ∧
+    updateSeqEqFresh a [b, a] = true := by decide
+
 
 end Leptos.View
